@@ -1669,9 +1669,10 @@ def run(chk, cases=None):
     replaying = cases is not None
     if cases is None:
         cases = gen_exhaustive(chk) + [dict({k: v for k, v in c.items() if k != "note"}, stream="corpus") for c in load_corpus("C07") if "api" in c] + gen_random(chk) + gen_extreme(chk) + gen_robust(chk)
-    results, terms = [], []
+    results, terms, streams = [], [], []
     for c in cases:
         stream = c.pop("stream", "random")
+        streams.append(stream)
         res = _safe_eval(c)
         results.append(res)
         terms.append(_term(res))
@@ -1705,6 +1706,9 @@ def run(chk, cases=None):
             chk.count("walk.initial_state=bias")
     ok = coq_eval_bools(chk.workdir, IMPORTS, terms)
     bad = [i for i in range(len(cases)) if results[i]["fail"] or not ok[i]]
+    for i in bad:
+        if not (results[i].get("k8") and len(results[i]["k8"]) == len(results[i]["fail"]) and ok[i]):
+            chk.count("failing:stream=%s" % streams[i])       # absent on a tree the check accepts (K8 cases aside)
     chk.extra["model_disagreements"] = sum(1 for i in range(len(cases)) if not ok[i])
     chk.extra["impl_level_failures"] = sum(1 for r in results if r["fail"])
     reported_concrete, pending_nfi, seen = 0, [], set()
@@ -1732,6 +1736,109 @@ def run(chk, cases=None):
         chk.report(pending_nfi[0], no_failing_input=True)
     elif pending_nfi:
         chk.extra["model_only_disagreements"] = [r["case"] for r in pending_nfi[:5]]
+    source_tie(chk, cases, results)
+
+
+# ----------------------------------------------------------------------------------------
+# source tie (tensor slp): the translated Python text of _sequence_log_probs_tensor / _lens_from_eos, interpreted inside
+# Coq (PV.MiniPy.Interp, torch calls = PV.MiniTorch.OpsC07 through SrcRun.ext07), on the slp cases of this run
+# ----------------------------------------------------------------------------------------
+IMPORTS_SRC = IMPORTS + "From PV Require C07.SrcRun.\n"
+SRC_TIE_MAX = 1500     # cases evaluated per run (an evenly spaced sample beyond that; ~7 ms each)
+SRC_TIE_THEOREMS = ["c07_source_slp_is_model", "c07_source_slp_raises", "c07_source_lens_is_model", "c07_source_slp_eq_spec"]
+
+
+def _src_slp_nd_term(case, res):
+    """the interpreted source on the case's ORIGINAL layout (any number of dimensions, the case's own dim - also out of
+    range -, flat row-major data; the oracle = torch's float64 log_softmax on the 2^-40 grid, as for the model) against
+    the implementation's outcome: an exception, or the output shape and values within the case's tolerance"""
+    impl = res.get("impl")
+    if impl is None or impl in ("variant", "badshape"):
+        return None
+    shape, V, dim, eos = list(case["shape"]), case["V"], case["dim"], case["eos"]
+    if V < 1 or prod(shape) * V > 2000:
+        return None
+    hyp_l, lg_l = slp_data(case)
+    logits = (torch.tensor(lg_l, dtype=torch.float64).view(shape + [V]) / 4).to(case_dtype(case))
+    ls = logits.double().log_softmax(-1)
+    nd = len(shape)
+    if isinstance(impl, str):
+        tol, impl_c = TOL, "None"
+    else:
+        d = dim % nd
+        tol, _ = tols(case, shape[d], absmax(ls))
+        flat = [zs(x) for row in impl for x in row]
+        impl_c = co(cp(ln(shape[:d] + shape[d + 1:]), lz(flat)))
+    return (f"SrcRun.src_slp_nd_check {cz(tol)} {ln(shape)} {cn(V)} {cz(dim)} {oz(eos)} "
+            f"{lz(_scaled(ls.reshape(-1)))} {lz(hyp_l)} {impl_c}")
+
+
+def _time_pos(case):
+    nd, dim = len(case["shape"]), case["dim"]
+    if dim < -nd or dim > nd - 1:
+        return "out-of-range"
+    d = dim % nd
+    return "first" if d == 0 else "last" if d == nd - 1 else "middle"
+
+
+def src_slp_term(case, res):
+    """bool: (a) SrcRun.src_slp_check on exactly the arguments of the model term (normal form (outer, time, inner), dim 1:
+    the statement of c07_source_slp_is_model), and (b) the same source on the original layout (_src_slp_nd_term)"""
+    parts = ["SrcRun.src_slp_check " + t[len("check_slp_tensor "):] for n, t in res["terms"]
+             if n == "model" and t.startswith("check_slp_tensor ") and case["V"] >= 1]
+    nd = _src_slp_nd_term(case, res)
+    if nd is not None:
+        parts.append(nd)
+    return "(" + " && ".join(parts) + ")" if parts else None
+
+
+def source_tie(chk, cases, results):
+    """validates the translator, MiniPy's semantics, ext07 and the MiniTorch definitions against CPython + torch on the
+    run's own tensor slp cases; independent of whether the tie lemmas still compile"""
+    import time
+    from vlib import CoqError
+    idx, terms = [], []
+    for i, (c, r) in enumerate(zip(cases, results)):
+        if c.get("api") != "slp":
+            continue
+        try:
+            t = src_slp_term(c, r)
+        except Exception:  # noqa: BLE001  (a case the generator itself cannot rebuild is not a verdict here)
+            t = None
+        if t is not None:
+            idx.append(i)
+            terms.append(t)
+    if not idx:
+        chk.extra["source_tie_run"] = {"cases": 0, "disagreements": 0}
+        return
+    eligible = len(idx)
+    if eligible > SRC_TIE_MAX:
+        keep = sorted({(k * eligible) // SRC_TIE_MAX for k in range(SRC_TIE_MAX)})
+        idx, terms = [idx[k] for k in keep], [terms[k] for k in keep]
+    t0 = time.time()
+    try:
+        res = coq_eval_bools(chk.workdir, IMPORTS_SRC, terms, shard=60, tag="src")
+    except CoqError as e:
+        chk.extra["source_tie_run"] = "not evaluated: " + str(e)[-400:]
+        return
+    bad = [idx[j] for j, ok in enumerate(res) if not ok]
+    chk.extra["source_tie_run"] = {
+        "cases": len(idx), "eligible": eligible, "disagreements": len(bad), "wall_s": round(time.time() - t0, 1),
+        "eos_set": sum(1 for i in idx if cases[i]["eos"] is not None),
+        "raised": sum(1 for i in idx if isinstance(results[i].get("impl"), str)),
+        "dims": sorted({len(cases[i]["shape"]) for i in idx}),
+        "time_dim": {k: sum(1 for i in idx if _time_pos(cases[i]) == k) for k in ("first", "middle", "last", "out-of-range")}}
+    chk.count("source_tie_cases", len(idx))
+    if bad:
+        i = bad[0]
+        chk.report({"case": cases[i], "impl": results[i].get("impl"),
+                    "what": "the Python source of _sequence_log_probs_tensor / _lens_from_eos as translated to MiniPy and "
+                            "interpreted in Coq (PV.C07.SrcRun.src_slp_check / src_slp_nd_check, torch calls = "
+                            "PV.MiniTorch.OpsC07) does not reproduce the implementation's output: translator / interpreter / "
+                            "ext07 / MiniTorch no longer describe the code",
+                    "disagreeing_cases": len(bad),
+                    "correspondence": "tie:C07:py2coq+MiniPy.Interp+MiniTorch:_sequence_log_probs_tensor",
+                    "theorems_at_stake": SRC_TIE_THEOREMS}, no_failing_input=True)
 
 
 def replay(chk, path):
